@@ -610,18 +610,20 @@ theorem tableMore_okC (reg0 : Registry) (fs : List QFeature) (rest : Bytes) (stk
         (fun x hx => hw x (by simp [hx])) (by simp only [List.length_cons] at hf; omega)]
       simp [readFeatureC, readItemsC, learnTable]
 
-/-- **Feature table, CRLF file** (reader side) -/
-theorem table_okC (reg : Registry) (ft : QFeature) (fs : List QFeature) (rest : Bytes) (stk : List Bytes)
-    (hw : ∀ x ∈ ft :: fs, featOk reg x = true ∧ LocRTC x.loc)
+/-- **Feature table, CRLF file** (reader side): the table written under `reg0`, read under any
+registry `reg` that writes the same text -/
+theorem table_okC (reg0 reg : Registry) (hs : sameText reg0 reg) (ft : QFeature) (fs : List QFeature)
+    (rest : Bytes) (stk : List Bytes)
+    (hw : ∀ x ∈ ft :: fs, featOk reg0 x = true ∧ LocRTC x.loc)
     (hrest : (sp 5).isPrefixOf rest = false) :
-    table reg ⟨featsTextC reg (ft :: fs) ++ rest, stk⟩ =
-      (.ok ((ft :: fs).map (readFeatureC reg), learnTable reg (ft :: fs)), ⟨rest, stk⟩) := by
+    table reg ⟨featsTextC reg0 (ft :: fs) ++ rest, stk⟩ =
+      (.ok ((ft :: fs).map (readFeatureC reg0), learnTable reg (ft :: fs)), ⟨rest, stk⟩) := by
   obtain ⟨hok, hloc⟩ := hw ft (by simp)
   simp only [featOk, Bool.and_eq_true, List.all_eq_true] at hok
   obtain ⟨hk, hq⟩ := hok
   have hk' := hk
   simp only [keyOk, Bool.and_eq_true, decide_eq_true_eq] at hk'
-  have hrest' : (sp 21).isPrefixOf (featsTextC reg fs ++ rest) = false := by
+  have hrest' : (sp 21).isPrefixOf (featsTextC reg0 fs ++ rest) = false := by
     cases fs with
     | nil => simpa [featsTextC] using sp_prefix_mono 5 21 rest (by omega) hrest
     | cons ft' fs' =>
@@ -631,20 +633,20 @@ theorem table_okC (reg : Registry) (ft : QFeature) (fs : List QFeature) (rest : 
       rw [featLinesC_more]
       exact sp21_keylineC _ _ _ hok'.1
   have hlen : (propsItems ft.props).length <
-      (qualLinesC reg 21 (propsItems ft.props) ++ (featsTextC reg fs ++ rest)).length + 1 := by
-    have := qualLinesC_length_ge reg 21 (propsItems ft.props)
+      (qualLinesC reg0 21 (propsItems ft.props) ++ (featsTextC reg0 fs ++ rest)).length + 1 := by
+    have := qualLinesC_length_ge reg0 21 (propsItems ft.props)
     simp only [List.length_append]; omega
   have hd : 5 + ft.key.length + (16 - ft.key.length) = 21 := by omega
-  have hqs := qualifiers_roundtripC reg 21 (propsItems ft.props) (featsTextC reg fs ++ rest) stk reg [] _
-    (sameText_refl reg) hq hrest' hlen
+  have hqs := qualifiers_roundtripC reg0 21 (propsItems ft.props) (featsTextC reg0 fs ++ rest) stk reg [] _
+    hs hq hrest' hlen
   have hlen2 : fs.length <
-      (qualLinesC reg 21 (propsItems ft.props) ++ (featsTextC reg fs ++ rest)).length + 1 := by
-    have := featsTextC_length_ge reg fs
+      (qualLinesC reg0 21 (propsItems ft.props) ++ (featsTextC reg0 fs ++ rest)).length + 1 := by
+    have := featsTextC_length_ge reg0 fs
     simp only [List.length_append]; omega
-  have hmore := tableMore_okC reg fs rest stk (learnAll reg (propsItems ft.props)) [readFeatureC reg ft] _
-    (sameText_learnAll reg reg _ (sameText_refl reg)) (fun x hx => hw x (by simp [hx])) hrest hlen2
-  have e : featsTextC reg (ft :: fs) ++ rest =
-      keylineTextC ft.key ft.loc (qualLinesC reg 21 (propsItems ft.props) ++ (featsTextC reg fs ++ rest)) := by
+  have hmore := tableMore_okC reg0 fs rest stk (learnAll reg (propsItems ft.props)) [readFeatureC reg0 ft] _
+    (sameText_learnAll reg0 reg _ hs) (fun x hx => hw x (by simp [hx])) hrest hlen2
+  have e : featsTextC reg0 (ft :: fs) ++ rest =
+      keylineTextC ft.key ft.loc (qualLinesC reg0 21 (propsItems ft.props) ++ (featsTextC reg0 fs ++ rest)) := by
     simp only [featsTextC, List.flatMap_cons, List.append_assoc]
     rw [featLinesC_more]
   rw [e]
@@ -655,14 +657,16 @@ theorem table_okC (reg : Registry) (ft : QFeature) (fs : List QFeature) (rest : 
   simp [readFeatureC, readItemsC, learnTable]
 
 /-- **FEATURES, CRLF file.**  The CRLF translation of the `FEATURES` section `GenBank.String` writes
-for a non-empty table, read by `genbankFeatureParser`: keys, locations, qualifier names, order and
-registry as from the LF file; the values as `readFeatureC` says. -/
-theorem features_roundtripC (reg : Registry) (ft : QFeature) (fs : List QFeature) (rest : Bytes)
-    (stk : List Bytes) (hw : tableWritable reg (ft :: fs) = true) (hloc : ∀ x ∈ ft :: fs, LocRTC x.loc)
+(under `reg0`) for a non-empty table, read by `genbankFeatureParser` under any registry `reg` that
+writes the same text: keys, locations, qualifier names, order and registry as from the LF file; the
+values as `readFeatureC` says. -/
+theorem features_roundtripC (reg0 reg : Registry) (hs : sameText reg0 reg) (ft : QFeature) (fs : List QFeature)
+    (rest : Bytes)
+    (stk : List Bytes) (hw : tableWritable reg0 (ft :: fs) = true) (hloc : ∀ x ∈ ft :: fs, LocRTC x.loc)
     (hrest : (sp 5).isPrefixOf rest = false) :
-    ∃ t, tableText reg (ft :: fs) = .ok t ∧
+    ∃ t, tableText reg0 (ft :: fs) = .ok t ∧
       featuresField reg ⟨Origin.crlf (bs "FEATURES             Location/Qualifiers\n" ++ (t ++ [10])) ++ rest, stk⟩ =
-        (.ok ((ft :: fs).map (readFeatureC reg), learnTable reg (ft :: fs)), ⟨rest, []⟩) := by
+        (.ok ((ft :: fs).map (readFeatureC reg0), learnTable reg (ft :: fs)), ⟨rest, []⟩) := by
   simp only [tableWritable, List.all_eq_true, Bool.and_eq_true] at hw
   have hk : ∀ f ∈ ft :: fs, f.key.length ≤ 15 ∧ propsOk f.props = true := by
     intro f hf
@@ -674,19 +678,19 @@ theorem features_roundtripC (reg : Registry) (ft : QFeature) (fs : List QFeature
     obtain ⟨h1, _⟩ := hw f hf
     simp only [featOk, Bool.and_eq_true] at h1
     exact h1.1
-  obtain ⟨t, ht, e⟩ := tableText_lines reg ft fs hk
+  obtain ⟨t, ht, e⟩ := tableText_lines reg0 ft fs hk
   refine ⟨t, ht, ?_⟩
   have e3 : Origin.crlf (bs "FEATURES             Location/Qualifiers\n" ++ (t ++ [10])) ++ rest =
-      bs "FEATURES" ++ (bs "             Location/Qualifiers" ++ 13 :: 10 :: (featsTextC reg (ft :: fs) ++ rest)) := by
-    rw [e, crlf_append, crlf_featsText reg _ hkey]
+      bs "FEATURES" ++ (bs "             Location/Qualifiers" ++ 13 :: 10 :: (featsTextC reg0 (ft :: fs) ++ rest)) := by
+    rw [e, crlf_append, crlf_featsText reg0 _ hkey]
     have : Origin.crlf (bs "FEATURES             Location/Qualifiers\n") =
         bs "FEATURES" ++ (bs "             Location/Qualifiers" ++ [13, 10]) := by decide
     rw [this]
     simp [List.append_assoc]
   rw [e3]
-  have hline := fun s => line_okC (bs "             Location/Qualifiers") (featsTextC reg (ft :: fs) ++ rest) s (by decide)
+  have hline := fun s => line_okC (bs "             Location/Qualifiers") (featsTextC reg0 (ft :: fs) ++ rest) s (by decide)
   have hlit := fun r s => lit_ok (bs "FEATURES") r s
-  have ht' := fun s => table_okC reg ft fs rest s (fun x hx => ⟨(hw x hx).1, hloc x hx⟩) hrest
+  have ht' := fun s => table_okC reg0 reg hs ft fs rest s (fun x hx => ⟨(hw x hx).1, hloc x hx⟩) hrest
   gsimp [featuresField, hlit, hline, ht']
 
 end Gts.GenBank
